@@ -28,31 +28,25 @@ def doRun (st : McSt) (ws : List String) (fromStates : Bool) : McSt × List Stri
   let acc0 : Acc Sys (McSys.Key PState) := { cache := { mode := mode' } }
   let cb := applyCbs st.cfg h st.cbs
   let hdr := s!"run {st.runs}"
-  let starts : List Sys :=
+  let sortedStarts : List Sys :=
+    -- `states.sort_by_key(depth)`; ties are ordered by the state hash in the code: the comparison
+    -- is on evaluated *sets* for multi-start runs, so any tie order is fine here
+    st.collected.foldl (fun acc s =>
+      let (a, b) := acc.span (fun x => x.depth ≤ s.depth); a ++ [s] ++ b) []
+  let outcome : Option (Res Sys × Totals PState) :=
     if fromStates then
-      -- `states.sort_by_key(depth)`; ties are ordered by the state hash in the code: the harness
-      -- reports evaluated *sets* for multi-start runs, so any tie order is fine here
-      let sorted := st.collected.foldl (fun acc s =>
-        let (a, b) := acc.span (fun x => x.depth ≤ s.depth); a ++ [s] ++ b) []
-      sorted.map fun c => (sys.setState c.getState)
-    else [sys]
-  -- run over the start states with one strategy (shared cache); statistics are summed
-  let rec go : List Sys → Acc Sys (McSys.Key PState) → List Sys → List Sys → List (String × Nat) →
-      (String × List Sys × List Sys × List (String × Nat) × Option Sys)
-    | [], _, ev, col, stt => ("ok", ev, col, stt, none)
-    | s :: rest, acc, ev, col, stt =>
-      match runImpl st.cfg h preds (fun _ => 0) strat fuelDefault s cb { acc with evald := [], collected := [], statuses := [] } with
-      | none => ("fuel", ev, col, stt, none)
-      | some (r, acc', _) =>
-        let ev' := ev ++ acc'.evald
-        let col' := acc'.collected.foldl (fun c x => if c.any (fun y => y.key = x.key) then c else c ++ [x]) col
-        let stt' := acc'.statuses.foldl (fun m (k, n) =>
-          if m.any (·.1 == k) then m.map (fun (a, c) => if a == k then (a, c + n) else (a, c)) else m ++ [(k, n)]) stt
-        match r with
-        | .ok => go rest acc' ev' col' stt'
-        | .err msg e => (s!"err:{if msg.startsWith "nothing left" then "deadend" else msg}", ev', col', stt', some e)
-        | .panic _ => ("panic", ev', col', stt', none)
-  let (res, ev, col, stt, errSt) := go starts acc0 [] [] []
+      (runFromStates st.cfg h preds (fun _ => 0) strat fuelDefault sys cb mode' (sortedStarts.map (·.getState))).map
+        fun (r, tot, _) => (r, tot)
+    else
+      (runImpl st.cfg h preds (fun _ => 0) strat fuelDefault sys cb acc0).map
+        fun (r, acc, _) => (r, ({ evald := acc.evald, collected := acc.collected, statuses := acc.statuses } : Totals PState))
+  let (res, ev, col, stt, errSt) : String × List Sys × List Sys × List (String × Nat) × Option Sys :=
+    match outcome with
+    | none => ("fuel", [], [], [], none)
+    | some (.ok, tot) => ("ok", tot.evald, tot.collected, tot.statuses, none)
+    | some (.err msg e, tot) =>
+      (s!"err:{if msg.startsWith "nothing left" then "deadend" else msg}", tot.evald, tot.collected, tot.statuses, some e)
+    | some (.panic _, tot) => ("panic", tot.evald, tot.collected, tot.statuses, none)
   let refLines : List String :=
     if !st.refenum || fromStates then [] else
       -- (a) the contract-conforming reference variant of the model checker (no D1)
